@@ -58,12 +58,28 @@ theorem stepInstr_preserves8 (P : Ctx → Prop) (H : OpsPreserve8 P) (s : St) (i
       · exact hs
       · trivial
     · exact hs
+  · have hs := H.slotat s.ctx (s8 (ps.getD 2 0)) h
+    split
+    · split
+      · exact hs
+      · trivial
+    · exact hs
+  · have hs := H.slotat s.ctx (s8 (ps.getD 1 0)) h
+    split
+    · split
+      · exact hs
+      · trivial
+    · exact hs
   · split
     · have := H.attrSet s.ctx (ps.getD 0 0) 0 (i16 ‹Int›) h
       split <;> rename_i heq <;> rw [heq] at this <;> first | exact this | trivial
     · trivial
   · split
     · have := H.attrSet s.ctx (ps.getD 0 0) 0 (i16 (i32 (‹Int› + curAttr s.ctx (ps.getD 0 0)))) h
+      split <;> rename_i heq <;> rw [heq] at this <;> first | exact this | trivial
+    · trivial
+  · split
+    · have := H.attrSet s.ctx (ps.getD 0 0) 0 (i16 (i32 (curAttr s.ctx (ps.getD 0 0) - ‹Int›))) h
       split <;> rename_i heq <;> rw [heq] at this <;> first | exact this | trivial
     · trivial
   · split
@@ -285,7 +301,7 @@ theorem gcStep_keep (acc : Ctx × Option Nat) (k : Nat) {l : List Nat} (h : JO a
   · exact IdxKeep.rfl' _ _
 
 theorem gc_keep (c : Ctx) (a : Option Nat) {l : List Nat} (h : JO c l a) : IdxKeep l c.seg (collectGarbage c a).1.seg := by
-  unfold collectGarbage
+  rw [collectGarbage_fst]; unfold gcCells
   generalize (List.range (c.size - 1)) = ks
   have : ∀ (ks : List Nat) (acc : Ctx × Option Nat), JO acc.1 l acc.2 → IdxKeep l acc.1.seg (ks.foldl gcStep acc).1.seg := by
     intro ks
